@@ -320,4 +320,4 @@ def check(ck):
     # ---- R6: readers that run outside the per-call mutex (the batch pre-check) never observe a
     # published name whose object is still being written
     from .c08 import check_write_order
-    check_write_order(ck, "C09.R6", only_output=True)
+    ck.run(check_write_order, ck, "C09.R6", only_output=True)
